@@ -140,12 +140,17 @@ def applyOp (w : World) : Op → World × Res
   | .register k req =>
     let (rm, chk) := w.rm.register req (.script k)
     (({ w with rm := rm }).rmEffects [] chk, .ok)
+  -- `schedule_failure`, `shutdown`, `restore_functionality` exist on PartProcessor only
   | .schedFail d t =>
-    w.sched t (w.dev d).aid (.fail d) pFail
+    if (w.dev d).kind != .processor then (w, .err .attribute)
+    else w.sched t (w.dev d).aid (.fail d) pFail
   | .schedFailRel d dt =>
-    w.sched (w.now + dt) (w.dev d).aid (.fail d) pFail
-  | .shutdown d => (w.shutdownDev d false none, .ok)
-  | .restore d => (w.restoreDev d, .ok)
+    if (w.dev d).kind != .processor then (w, .err .attribute)
+    else w.sched (w.now + dt) (w.dev d).aid (.fail d) pFail
+  | .shutdown d =>
+    if (w.dev d).kind != .processor then (w, .err .attribute) else (w.shutdownDev d false none, .ok)
+  | .restore d =>
+    if (w.dev d).kind != .processor then (w, .err .attribute) else (w.restoreDev d, .ok)
   | .block d b => (w.setBlock d b, .ok)
   | .adjust d n => (w.adjustParts d n, .ok)
   | .setCycle d c =>
